@@ -98,32 +98,22 @@ theorem parseEvent_ne_panic (line : Str) : parseEvent line ≠ .error .panic := 
 theorem parseDifficulty_ne_panic (d : DiffState) (line : Str) :
     (parseDifficulty d line).2 ≠ .error .panic := by
   unfold parseDifficulty
-  cases keyValue (trimComment line) with
-  | mk k v =>
+  cases difficultyArms.find? (fun a => a.key.toList == (keyValue (trimComment line)).1) with
+  | none => simp
+  | some a =>
     simp only []
-    cases lookupKey difficultyKeys k with
-    | none => simp
-    | some key =>
-      cases key <;> simp only []
-      · cases parseF32 v <;> simp
-      · cases parseF32 v <;> simp
-      · cases parseF32 v <;> simp
-      · cases parseF32 v <;> simp
-      · cases parseF64 v <;> simp
-      · cases parseF64 v <;> simp
+    cases (if a.f64 then parseF64 (keyValue (trimComment line)).2
+      else parseF32 (keyValue (trimComment line)).2) <;> simp
 
 theorem parseGeneral_ne_panic (g : Nat × Nat) (line : Str) :
     (parseGeneral g line).2 ≠ .error .panic := by
   unfold parseGeneral
-  cases keyValue (trimComment line) with
-  | mk k v =>
-    simp only []
-    cases lookupKey generalKeys k with
-    | none => simp
-    | some key =>
-      cases key <;> simp only []
-      · cases parseF32 v <;> simp
-      · cases modeOfStr v <;> simp
+  cases (generalArms.find? (fun a => a.key.toList == (keyValue (trimComment line)).1)).map (·.field) with
+  | none => simp
+  | some key =>
+    cases key <;> simp only []
+    · cases parseF32 (keyValue (trimComment line)).2 <;> simp
+    · cases modeOfStr (keyValue (trimComment line)).2 <;> simp
 
 theorem parseTimingPoint_ne_panic (scroll : Bool) (s : CPS) (line : Str) :
     (parseTimingPoint scroll s line).2 ≠ .error .panic := by
